@@ -80,6 +80,7 @@ type World struct {
 	G        *GenTorrent
 	Peers    []*Peer
 	Trackers []*ScriptTracker
+	WebSeeds []*WebSeed
 	Step     int
 	Labels   []string
 	Fails    []Failure
@@ -153,9 +154,19 @@ func (w *World) AddTorrent(g *GenTorrent, opt *torrent.AddTorrentOptions) *torre
 
 // Quiesce waits until every goroutine in the bubble is durably blocked, then lets the scripted peers read.
 func (w *World) Quiesce() {
-	synctest.Wait()
-	for _, p := range w.Peers {
-		p.Process()
+	for i := 0; i < 8; i++ {
+		synctest.Wait()
+		again := false
+		for _, p := range w.Peers {
+			p.wrote = false
+			p.Process()
+			if p.wrote {
+				again = true // an automatic reply (handshake answer) was written: let the client read it
+			}
+		}
+		if !again {
+			return
+		}
 	}
 }
 
@@ -322,6 +333,12 @@ func (w *World) Digest() uint64 {
 		}
 	}
 	for _, p := range w.Peers {
+		if p.ClosedSeen {
+			// what a peer still receives while the client is closing its connection is a genuine race
+			// (writer goroutine vs close); it is not part of the state
+			fmt.Fprintf(h, "|%s:closed", p.Name)
+			continue
+		}
 		fmt.Fprintf(h, "|%s:%d:%d:%v:%v:%v", p.Name, len(p.Inbox), len(p.Requests), p.GotHS, p.ClosedSeen, p.Interested)
 	}
 	for _, t := range w.Trackers {
@@ -530,6 +547,10 @@ func Exec(t *testing.T, sc *Scenario, arg json.RawMessage, prefix []int, expect 
 			if w.Tor != nil {
 				w.PreStatus = w.Tor.VerifState().Status
 			}
+			// a little virtual time passes between any two explorer steps, so that timers armed in
+			// different steps never expire at the same instant (equal-deadline timers wake their
+			// goroutines in an order the harness does not own)
+			time.Sleep(time.Millisecond)
 			acts[choice].Do(w)
 			w.Quiesce()
 			w.Step++
@@ -604,6 +625,9 @@ func (w *World) teardown() {
 		synctest.Wait()
 		select {
 		case <-done:
+			for _, ws := range w.WebSeeds {
+				ws.CloseAll()
+			}
 			// Time stops when the bubble's root returns: let every pending timer (context deadlines of
 			// stop announcers, idle-connection timers) fire first so that their goroutines can exit.
 			synctest.Wait()
